@@ -151,16 +151,21 @@ package syntax
 //@ func SafeStdScopeTuple()
 //@   tags C18
 //@   abstract body
+// //deprecated.exec runs arbitrary commands: it belongs to the UNSAFE library (registered by StdScope next to //os.file
+// and //net since the fix that moved it out of SafeStdScopeTuple); a unit without authority that references it fails.
 //@ func stdDeprecated()
 //@   tags C18
+//@   requires[C18] auth
 //@   abstract body
 //@ func stdDeprecatedExec()
 //@   tags C18
+//@   requires[C18] auth
 //@   abstract body
 // (static unit: its implicit safety obligations — sparse arrays, nil elements — are C10 matter and would only
 //  blur the C18 verdict; both authority-bearing calls of the body are charged)
 //@ func stdDeprecatedExec$1(ctx, value)
 //@   tags C18
+//@   requires[C18] auth
 //@   abstract body
 
 // ================= GENERATED (bin/govc authstubs refs syntax.SafeStdScopeTuple, files syntax/std*) ===================================
